@@ -68,3 +68,12 @@ Definition chk_C15m (c o : value) : bool :=
   | VL [VL _; VL _; _; VL _], _ => false
   | _, _ => true
   end.
+
+(* family "life" under C15: ( kind conns destroy expectedResponses ) -> ( live fd responses ): a whole-body slot is invoked (and
+   answers) for every complete request, however large the body *)
+Definition chk_C15_life (c o : value) : bool :=
+  match c, o with
+  | VL [VI _; VL _; VI _; VI expected], VL [VI _; VI _; VI responses] => (responses =? expected)%Z
+  | VL [VI _; VL _; VI _; VI _], _ => false
+  | _, _ => true
+  end.
